@@ -1,4 +1,4 @@
-// native replay for unit mpsubmit: a counterexample of "never both" on the stateful-failure path of submit<ATV> (the payload was
+// native replay for unit mpsubmit: a counterexample of "never both" on the stateful-failure path of submit<ATV> / submit<VTB> (the payload was
 // connected before, the stateless check passes, the stateful check fails) is turned into the history that produces exactly those
 // verdicts on the REAL MemPool / AltBlockTree (test fixtures of /repo/test): submit(A) -> connected; a block containing A becomes the
 // tip (removeAll not yet called); submit(A) again -> "atv-duplicate" (stateful).  REPRODUCED iff A is then in both maps.
@@ -31,6 +31,31 @@ TEST_F(MemPoolFixture, resubmit_connected_atv_after_it_went_on_chain) {
   printf("connected=%d inflight=%d\n", (int)connected, (int)inflight);
   g_reproduced = connected && inflight;
 }
+TEST_F(MemPoolFixture, resubmit_connected_vtb_after_it_went_on_chain) {
+  auto* vbkTip = popminer.mineVbkBlocks(65);
+  const auto* endorsedVbkBlock = vbkTip->getAncestor(vbkTip->getHeight() - 10);
+  auto vbkPopTx = generatePopTx(endorsedVbkBlock->getHeader());
+  vbkTip = popminer.mineVbkBlocks(1, {vbkPopTx});
+  auto vtb = popminer.createVTB(vbkTip->getHeader(), vbkPopTx);
+  mineAltBlocks(10, chain, /*connectBlocks=*/true, /*setState=*/false);
+  std::vector<VbkBlock> context;
+  fillVbkContext(context, GetRegTestVbkBlock().getHash(), popminer.vbk());
+  for (const auto& b : context) submitVBK(b);
+  submitVTB(vtb);
+  ASSERT_TRUE(alttree.setState(chain.back().getHash(), state));
+  PopData popData = checkedGetPop();
+  ASSERT_EQ(popData.vtbs.size(), 1u);
+  auto id = vtb.getId();
+  ASSERT_EQ(mempool.getMap<VTB>().count(id), 1u);
+  applyInNextBlock(popData);
+  auto res = mempool.submit(vtb, true, state);
+  printf("resubmit: status=%d state=%s\n", (int)res.status, state.toString().c_str());
+  state.reset();
+  bool connected = mempool.getMap<VTB>().count(id) == 1;
+  bool inflight = mempool.getInFlightMap<VTB>().find(id) != mempool.getInFlightMap<VTB>().end();
+  printf("connected=%d inflight=%d\n", (int)connected, (int)inflight);
+  g_reproduced = connected && inflight;
+}
 int main(int argc, char** argv) {
   ReplayInputs in;
   if (argc < 3 || !in.load(argv[1])) { printf("NOT-REPRODUCED: cannot read inputs\n"); return 2; }
@@ -40,11 +65,12 @@ int main(int argc, char** argv) {
   for (int i = 0; i < 7; i++) v[i] = (long long)b[4 * i] | ((long long)b[4 * i + 1] << 8) | ((long long)b[4 * i + 2] << 16) | ((long long)b[4 * i + 3] << 24);
   long long kind = in.S("kind_wrapper", in.S("kind"));
   bool path = v[1] != 0 && v[2] == 0 && v[6] != 0 && v[5] == 0 && !(v[4] != 0 && v[0] != 0);
-  if (kind != 0 || !path) { printf("NOT-REPRODUCED: no native history for this counterexample (kind=%lld)\n", kind); return 0; }
-  int gargc = 1; char* gargv[] = {argv[0], nullptr};
+  if ((kind != 0 && kind != 1) || !path) { printf("NOT-REPRODUCED: no native history for this counterexample (kind=%lld)\n", kind); return 0; }
+  int gargc = 2; char filt[128]; snprintf(filt, sizeof filt, "--gtest_filter=*resubmit_connected_%s_*", kind == 0 ? "atv" : "vtb");
+  char* gargv[] = {argv[0], filt, nullptr};
   ::testing::InitGoogleTest(&gargc, gargv);
   int rc = RUN_ALL_TESTS();
   (void)rc;
-  printf(g_reproduced ? "REPRODUCED: the ATV is both connected and in flight after the re-submission\n" : "NOT-REPRODUCED: the real MemPool keeps the maps disjoint\n");
+  printf(g_reproduced ? "REPRODUCED: the payload is both connected and in flight after the re-submission\n" : "NOT-REPRODUCED: the real MemPool keeps the maps disjoint\n");
   return 0;
 }
